@@ -23,7 +23,7 @@
        segment is positive (the premise diag_one_cart_R has as well).
    Relation to C10: Props/C10.v proves orthonormality on the EXACT model Model/SphExact.v (entries r*sqrt q);
    composing it would need the lemma "Model/Spherical.sph_transform K = interpretation of SphExact.left_form in
-   K" (for a field with exact square roots).  That lemma is not proved; Part III re-establishes the
+   K" (for a field with exact square roots).  That lemma is now proved in Proofs/SphLinkP.v (C10_link_entry); kept as an independent check; Part III re-establishes the
    orthonormality directly for Model/Spherical, on the same finite domain l <= 10. *)
 From Coq Require Import List Arith Lia Bool Field.
 From GB Require Import Base.Field Base.FNum Base.Tables Base.Blocks Gauss.Moment1D Model.Shell Model.MomentInt
